@@ -53,13 +53,22 @@ for i in ids:
         m["checks"].append({
           "property_id": i, "quick_cmd": f"./check {i} quick", "thorough_cmd": f"./check {i} thorough",
           "evidence_file": f"/verif/evidence/{i}.json", "replay_cmd_template": f"./check {i} --replay {{path}}",
-          "engine": "I2S+MC",
+          "engine": "I2S+S2I+MC",
           "level_claimed": {"category": lvl, "text": text, "design_ref": "DESIGN.md section " + ref},
           "level_note": "trusted: TLC 1.8.0, the TLA+ reference layer (pinned by spec/SelfTest.tla to published perft counts), the harness projection; bounded: the explored positions/histories, not all",
           "technique": T if i not in ("C04","C05","C01","C03","C06","C07","C16") else "TLA+ specification + TLC: bounded model checking of the refinement between the implementation-shaped and the reference layer, TLC-enumerated input families replayed into the code, trace validation of recorded executions",
         })
     else:
         m["not_applicable"].append({"property_id": i, "reason": REASONS.get(i, "check not built yet (work in progress; see DESIGN.md build order)")})
-# engines are patched below
+ALL = [c["property_id"] for c in m["checks"]]
+m["engines"] = [
+ {"name": "I2S", "path": "harness/ + spec/Trace.tla", "serves_properties": ALL,
+  "kind_free_text": "implementation -> specification (trace validation): the Rust harness drives the real library and records one ndjson event per call (panics as data, write-ahead file for aborts); TLC validates every event against the TLA+ specification (spec/Trace.tla; env PROP selects the conjuncts of one property); stateful sessions (make/unmake, move chains, walkers) are followed by the specification's own actions"},
+ {"name": "S2I", "path": "spec/Families.tla + spec/MC_Families.tla + spec/MC_ChainSim.tla + harness gen-from / exec-scripts",
+  "serves_properties": ["C01","C02","C03","C04","C05","C06","C07","C09","C10","C11","C13","C14","C16","C17","C18","C19"],
+  "kind_free_text": "specification -> implementation: TLC enumerates 26 structured input families (states) and simulates the system specification (behaviours of push/pop/outcome/walker actions); every valid state / behaviour is replayed into the real code, the abstract state is compared after every action and the recorded execution is validated"},
+ {"name": "MC", "path": "spec/MC_Impl.tla, spec/MC_FamImpl.tla, spec/MC_Chain.tla (+ MC_ChainProbe.cfg), spec/MC_Notation.tla, spec/SelfTest.tla",
+  "serves_properties": ["C01","C02","C03","C04","C05","C06","C07","C08","C09","C10","C13","C14","C17"],
+  "kind_free_text": "TLC on the specification alone: bounded models checking that the implementation-shaped layer (make/unmake with incremental hash and sets, pin prefilter, generators, chain with repetition table, lazily positioned walker) refines the reference layer; reachability probes against vacuity; notation layer self-consistency; oracle pinned to published perft counts"}]
 json.dump(m, open("/verif/MANIFEST.json", "w"), indent=1)
 print("claimed", len(m["checks"]), "not_applicable", len(m["not_applicable"]))
